@@ -71,7 +71,10 @@ class Engine(CoreMixin, ExprMixin, CallMixin, StmtMixin, SpecMixin):
         self.used_contracts = set()
         self.max_paths = contract.flags.get('max_paths', 400)
         try:
-            self._verify(contract, rep)
+            try:
+                self._verify(contract, rep)
+            finally:
+                rep.fields = set(getattr(self, 'heap0', {}) or {})
         except Unsupported as e:
             rep.status = 'unsupported'
             rep.detail = str(e)
